@@ -240,8 +240,6 @@ mutual
     | .cons k v es => ValidUTF8 k ∧ Rep v ∧ RepMems es
 end
 
-theorem ws_nil : WS [] := by intro c hc; simp at hc
-
 mutual
   /-- `encode` of a representable value is a `Val` denoting its canonical form. -/
   theorem enc_val (pf : Bytes → UInt64) (ff : UInt64 → Bytes × Bytes) : ∀ (v : J), Rep v →
